@@ -432,7 +432,7 @@ class Lib(object):
             return
         raise Unsupported("dict.%s (line %d)" % (name, node.lineno))
 
-    def apply_external(self, engine, st, ext, args, kwargs, node):
+    def apply_external(self, engine, st, ext, args, kwargs, node, skip_at=None):
         """a library model given as outcomes: fork one path per outcome"""
         self.used.add("%s (%s)" % (ext.name, ext.note or "library model"))
         ln = engine.rel_line(node)
@@ -461,6 +461,12 @@ class Lib(object):
                           note="precondition of the library model: " + r)
             st.pc.extend(facts)
             st.assume(z)
+        outcomes_all = ext.outcomes
+        if skip_at is not None:
+            # the outcomes that belong to an earlier step of the same operation (the table lookup) already happened
+            import copy as _copy
+            ext = _copy.copy(ext)
+            ext.outcomes = [oc for oc in outcomes_all if oc.get("at") != skip_at]
         guards = []
         for oc in ext.outcomes:
             gz = []
